@@ -100,6 +100,21 @@ func c15Neighbours(c *Ctx) {
 	if !m.IsEmpty() {
 		c.Distinct(mix(m.Hash(), hashStr(form)))
 	}
+	if r.Chance(0.4) {
+		// the bitmap under query is the outcome of a history: chunks that were emptied, trimmed, split or refilled
+		for i := 0; i < 1+r.Intn(6) && !c.Failed(); i++ {
+			if r.Chance(0.25) {
+				algebraStep(c, bm, "history/")
+			} else {
+				mutateStep(c, bm, MutOpts{Light: true, NoClone: true, Sig: "history/", OnlyOps: []string{"RemoveRange", "RemoveRange", "Remove", "CheckedRemove", "TrimEnds", "AddRange", "Flip", "Add", "RunOptimize"}})
+			}
+		}
+		if c.Failed() {
+			return
+		}
+		m = bm.M
+		c.Count("bitmap_reached_by_a_history")
+	}
 	h0 := storageHash(bm.B)
 	neighbourChecks(c, bm, argBattery(r, m, 30), "")
 	if storageHash(bm.B) != h0 {
